@@ -28,6 +28,8 @@ def known(ctx, key):
     if ctx.known(key):
         ctx.report_known(key)
         return True
+    if any(k.get("property") == PID and k.get("status") == "fixed" and k.get("defect") == "D17" for k in common.known_findings()):
+        return False                 # registered as repaired: the behaviour is a regression, not a finding
     if key in PENDING:
         if key not in ctx.known_hits:
             ctx.known_hits.append(key)
